@@ -401,9 +401,117 @@ def rule_lfda(repo, rep):
       break
 
 
+# ------------------------------------------------ LFDA scatter accumulation
+from ..ratfunc import Rat, LinM, eval_expr
+
+
+def rule_lfda_scatter(repo, rep):
+  R = 'R-FORM:lfda-scatter-accumulation'
+  rep.rule(R, 'the statements accumulating LFDA\'s scatter matrices, '
+           'evaluated as linear combinations of the atoms G_c, Xc^T Xc, '
+           's_c s_c^T, s s^T with rational coefficients in n and n_c, equal '
+           'the pairwise-defined local scatters: S_w = sum_c G_c / n_c and '
+           'S_b = sum_c [G_c / n + (1 - n_c / n) Xc^T Xc + s_c s_c^T / n] - '
+           's s^T / n - S_w (reference: the algebraic expansion of '
+           '1/2 sum_ij W_ij (x_i - x_j)(x_i - x_j)^T)')
+  c = repo.get_class('LFDA')
+  f = repo.resolve_method(c, 'fit')
+  loops = [n for n in ast.walk(f.node) if isinstance(n, ast.For) and
+           any(isinstance(s, ast.AugAssign) and
+               ast.unparse(s.target) in ('tSb', 'tSw') for s in n.body)]
+  if len(loops) != 1:
+    rep.unknown(R, 'LFDA.fit', site(f), 'class loop not recognised')
+    return
+  loop = loops[0]
+  scalars = {'n': 'n', 'nc': 'nc'}
+  # n and nc must be the sample counts
+  defs = {}
+  for n_ in ast.walk(f.node):
+    if isinstance(n_, ast.Assign):
+      defs[ast.unparse(n_.targets[0])] = ast.unparse(n_.value)
+  ok_counts = (defs.get('(n, d)') or defs.get('n, d')) == 'X.shape' and \
+      defs.get('nc') in ('Xc.shape[0]', 'len(Xc)')
+  if not ok_counts:
+    rep.unknown(R, 'LFDA.fit:counts', site(f), 'n / nc are not the sample '
+                'counts (n, d = X.shape; nc = Xc.shape[0])')
+    return
+  atoms = {'Xc.T.dot(Xc)': 'XtX', '_sum_outer(Xc)': 'scsc',
+           '_sum_outer(X)': 'ss', 'G': 'G'}
+  gdef = [s for s in loop.body if isinstance(s, ast.Assign) and
+          ast.unparse(s.targets[0]) == 'G']
+  gtxt = ast.unparse(gdef[0].value) if gdef else None
+  accepted_g = ('Xc.T.dot(A.sum(axis=0)[:, None] * Xc) - Xc.T.dot(A).dot(Xc)',
+                'Xc.T.dot(A.sum(axis=1)[:, None] * Xc) - Xc.T.dot(A).dot(Xc)',
+                'Xc.T.dot(np.diag(A.sum(axis=0))).dot(Xc) - Xc.T.dot(A).dot(Xc)')
+  if gtxt in accepted_g:
+    rep.derived(R, 'LFDA.fit:G', site(f, gdef[0]))
+  else:
+    rep.unknown(R, 'LFDA.fit:G', site(f), 'definition of G not recognised: '
+                '%s' % gtxt)
+  inc = {}
+  for s in loop.body:
+    if isinstance(s, ast.AugAssign) and isinstance(s.op, ast.Add) and \
+            ast.unparse(s.target) in ('tSb', 'tSw'):
+      v = eval_expr(s.value, scalars, atoms)
+      inc[ast.unparse(s.target)] = (v, s)
+  one = Rat.const(1)
+  n_, nc_ = Rat.sym('n'), Rat.sym('nc')
+  want_b = LinM.atom('G').scale(one / n_) + \
+      LinM.atom('XtX').scale(one - nc_ / n_) + \
+      LinM.atom('scsc').scale(one / n_)
+  want_w = LinM.atom('G').scale(one / nc_)
+  for name, want in (('tSb', want_b), ('tSw', want_w)):
+    if name not in inc or inc[name][0] is None:
+      rep.unknown(R, 'LFDA.fit:%s-increment' % name, site(f),
+                  'per-class increment not derivable')
+    elif isinstance(inc[name][0], LinM) and inc[name][0] == want:
+      rep.derived(R, 'LFDA.fit:%s-increment' % name, site(f, inc[name][1]),
+                  sample=dict(rule=R, statement=ast.unparse(inc[name][1]),
+                              normal_form=repr(inc[name][0])))
+    else:
+      rep.refuted(R, 'LFDA.fit:%s-increment' % name, site(f, inc[name][1]),
+                  'per-class increment of %s is %r, documented %r'
+                  % (name, inc[name][0], want))
+  # the adjustment after the loop
+  body = f.node.body
+  post = [s for s in body if isinstance(s, (ast.AugAssign, ast.Assign)) and
+          getattr(s, 'lineno', 0) > loop.end_lineno and
+          ast.unparse(s.target if isinstance(s, ast.AugAssign)
+                      else s.targets[0]) == 'tSb' and
+          'tSw' in ast.unparse(s.value)]
+  if not post:
+    rep.unknown(R, 'LFDA.fit:tSb-final', site(f), 'final adjustment of tSb '
+                'not found')
+    return
+  s = post[0]
+  atoms2 = dict(atoms)
+  atoms2['tSw'] = 'Sw'
+  atoms2['tSb'] = 'SbAcc'
+  v = eval_expr(s.value, scalars, atoms2)
+  if v is None or not isinstance(v, LinM):
+    rep.unknown(R, 'LFDA.fit:tSb-final', site(f, s), 'not derivable')
+    return
+  if isinstance(s, ast.AugAssign):
+    total = LinM.atom('SbAcc') + v if isinstance(s.op, ast.Add) else \
+        LinM.atom('SbAcc') - v
+  else:
+    total = v
+  want = LinM.atom('SbAcc') - LinM.atom('ss').scale(one / n_) - \
+      LinM.atom('Sw')
+  if total == want:
+    rep.derived(R, 'LFDA.fit:tSb-final', site(f, s))
+  else:
+    rep.refuted(R, 'LFDA.fit:tSb-final', site(f, s), 'the between-class '
+                'scatter is finished as %r, the pairwise definition gives %r '
+                '(statement: %s)' % (total, want, ast.unparse(s)))
+
+
 def check(repo, rep, tier):
   rule_order_statistics(repo, rep)
   rule_cov_sites(repo, rep)
   rule_covariance(repo, rep)
   rule_rca(repo, rep)
   rule_lfda(repo, rep)
+  rule_lfda_scatter(repo, rep)
+
+
